@@ -5,7 +5,7 @@ import ast
 
 from .program import (Inconclusive, ClassInfo, ExtClass, FuncInfo, ModRef,
                       ExtRef, ValueBinding, BUILTIN_CLASSES)
-from .values import (walk, Coll, V, Const, Sym, CRef, FRef, MRef, ERef, BRef, Bound,
+from .values import (FoldInfo, walk, Coll, V, Const, Sym, CRef, FRef, MRef, ERef, BRef, Bound,
                      BoundB, Obj, Tup, App, New, Coll, Part, Raise, HObj,
                      Event, Path)
 from .builtins_ import BuiltinsMixin
@@ -648,6 +648,7 @@ class Interp(BuiltinsMixin):
             f.vars[st.target.id] = after.fresh('last_' + st.target.id,
                                                meta=('elem', loop.iterable))
         after.notes.append(('loop', loop))
+        self.detect_fold(after, loop, entry_parts)
         if not is_for and not any(sig == BRK for (_, sig) in results):
             # leaving a `while` without break: its test is false now
             try:
@@ -675,8 +676,8 @@ class Interp(BuiltinsMixin):
                     for p in h.parts:
                         if p not in ha.parts:
                             ha.parts.append(p)
-                    if h.havoc:
-                        ha.havoc = True
+                    if h.havoc and not ha.havoc:
+                        ha.havoc = h.havoc
                     if len(h.parts) < len([x for x in ha.parts]) and False:
                         pass
                 elif h.kind == 'inst':
@@ -695,35 +696,16 @@ class Interp(BuiltinsMixin):
                 # stored in outer containers)
                 if oid not in after.heap:
                     after.heap[oid] = h
-        # a container that the body both reads and extends is summarised
-        # unsoundly by a comprehension: mark it (its summary is not evaluable)
-        modified = set()
-        newparts = []
+        # remember what this iteration path added and read (stateful loops
+        # are detected once all paths are merged)
         for oid, h in q.heap.items():
             if oid in base_ids and h.kind in ('list', 'set', 'dict'):
                 old = entry_parts.get(oid, ())
-                np_ = [p for p in h.parts if p not in old]
-                if np_:
-                    modified.add(oid)
-                    newparts.extend(np_)
-        if modified:
-            read = set()
-            vals = [c for (c, _) in q.pc[entry_pc_len:]]
-            for p in newparts:
-                vals.append(p.val)
-                vals.extend(c for (c, _) in p.conds)
-                if p.key is not None:
-                    vals.append(p.key)
-            for v in vals:
-                for x in walk(v):
-                    if isinstance(x, Coll) and x.oid in modified:
-                        read.add(x.oid)
-                    if isinstance(x, Obj) and x.oid in modified and \
-                            x is not v:
-                        read.add(x.oid)
-            for oid in read:
-                after.heap[oid].havoc = True
-                after.notes.append(('stateful-loop', oid, loop))
+                for p in h.parts:
+                    if p not in old:
+                        loop._new.append((oid, p))
+        for (c, _) in q.pc[entry_pc_len:]:
+            loop._read.append(c)
         # events
         n0 = len([e for e in after.log])
         known = set(id(e) for e in after.log)
@@ -733,6 +715,42 @@ class Interp(BuiltinsMixin):
         for n in q.notes:
             if n not in after.notes:
                 after.notes.append(n)
+
+    def detect_fold(self, after, loop, entry_parts):
+        """a container that the body both reads and extends cannot be
+        summarised by a comprehension: its value is the sequential fold of
+        the body over the generator bindings"""
+        modified = set(oid for (oid, p) in loop._new)
+        if not modified:
+            return
+        vals = list(loop._read)
+        for (oid, p) in loop._new:
+            vals.append(p.val)
+            vals.extend(c for (c, _) in p.conds)
+            if p.key is not None:
+                vals.append(p.key)
+        read = set()
+        for v in vals:
+            for x in walk(v):
+                if isinstance(x, Coll) and x.oid in modified:
+                    read.add(x.oid)
+                if isinstance(x, Obj) and x.oid in modified and x is not v:
+                    read.add(x.oid)
+        if not read:
+            return
+        fi = FoldInfo(loop.lid)
+        seen = set()
+        for (oid, p) in sorted(loop._new, key=lambda t: t[1].seq):
+            if (oid, p.seq) in seen:
+                continue
+            seen.add((oid, p.seq))
+            fi.steps.append((p.seq, oid, p))
+        for oid in modified:
+            if oid in after.heap:
+                fi.entry[oid] = (after.heap[oid].kind,
+                                 tuple(entry_parts.get(oid, ())))
+                after.heap[oid].havoc = fi
+        after.notes.append(('stateful-loop', sorted(read), loop))
 
     def st_While(self, st, fr, path):
         # concrete `while` is not needed in this code base: always generic
@@ -956,6 +974,8 @@ class LoopFrame(object):
         self.iterable = iterable
         self.lid = lid
         self.updates = {}
+        self._new = []
+        self._read = []
 
     def __repr__(self):
         return 'Loop(%r in %r)' % (self.var, self.iterable)
